@@ -318,7 +318,24 @@ def fam_conc_zero():
     f["name"] = "conc_zero"
     return f
 
-FAMS = dict(conc_zero=fam_conc_zero, conc=fam_conc, io=fam_io, policy=fam_policy, ugc=fam_ugc, conf=fam_conf, loop=fam_loop, loopq=fam_loopq, link=fam_link, url=fam_url, forced=fam_forced, allow=fam_allow, style=fam_style)
+HOSTILE = ["url(javascript:alert(1))", "url(data:text/html,x)", "url(//x.example/a)", "URL(JaVaScRiPt:alert(1))", "expression(alert(1))",
+           "javascript:alert(1)", "data:text/html;base64,eA==", "\\6a avascript:x", "\\j", "<", ">", "</style>", "@import url(x)", "@charset",
+           "url(httpx://e/)"]
+
+def fam_css():
+    """C18: for every default handler, values built from its own vocabulary with a hostile fragment spliced in."""
+    import re
+    here = os.path.dirname(os.path.abspath(__file__))
+    vocab = json.load(open(os.path.join(here, "css_vocabulary.json")))
+    urlsafe = re.compile(r"^[A-Za-z0-9._~:/?#@!$&'*+,;=%-]+$")
+    plainurl = re.compile(r"^url\(['\"]?https?://[a-z0-9./_:]+['\"]?\)$")
+    props = {}
+    for p in sorted(vocab):
+        props[p] = [dict(a=enc(a), plainurl=bool(plainurl.match(a))) for a in vocab[p]]
+    frags = [dict(t=enc(h), urlsafe=bool(urlsafe.match(h))) for h in HOSTILE]
+    return dict(name="css", props=props, proplist=sorted(props), frags=frags, recipes=[], tokens=[])
+
+FAMS = dict(css=fam_css, conc_zero=fam_conc_zero, conc=fam_conc, io=fam_io, policy=fam_policy, ugc=fam_ugc, conf=fam_conf, loop=fam_loop, loopq=fam_loopq, link=fam_link, url=fam_url, forced=fam_forced, allow=fam_allow, style=fam_style)
 
 if __name__ == "__main__":
     here = os.path.dirname(os.path.abspath(__file__))
